@@ -194,6 +194,10 @@ func (b *bb) runBatch(kind, ver string, size uint, nocopy bool, timeout time.Dur
 				for k := range sl {
 					sl[k] = -sl[k] - 1
 				}
+				// ... spare capacity included (`append` would use it)
+				for ext, k := sl[:cap(sl)], len(sl); k < len(ext); k++ {
+					ext[k] = -7777
+				}
 				kept = append(kept, sl)
 			}
 		case <-deadline:
@@ -678,8 +682,11 @@ func (b *bb) scenarioLimit() {
 	case "stall-burst":
 		// a few elements, a long silence, then far more than 2*Quantity at once: the burst
 		// after the silence must still be spread over the intervals (C04, window form)
+		// (Quantity of 4 or more and an unbuffered input: three portions leaving back to back
+		// exceed what the window bound allows on the receiving side, 2*Quantity + 3)
+		q = uint64(4 + r.Intn(4))
 		n = 10 * int(q)
-		inCap = []int{0, 1}[r.Intn(2)]
+		inCap = 0
 	case "small":
 		// fewer than Quantity elements: no pause at all, however long the interval is
 		q++
